@@ -92,11 +92,24 @@ def _n(v):
     return str(v) if v >= 0 else "(- %d)" % (-v)
 
 
+class ConsList(list):
+    """list of SMT strings; remembers how many atoms existed when each was added"""
+
+    def __init__(self, enc):
+        list.__init__(self)
+        self.enc = enc
+        self.stamp = []
+
+    def append(self, x):
+        list.append(self, x)
+        self.stamp.append(len(self.enc.order))
+
+
 class IntEnc:
     def __init__(self):
         self.atoms = {}       # name -> (lo, hi)
         self.order = []
-        self.cons = []        # SMT boolean strings
+        self.cons = ConsList(self)        # SMT boolean strings (+ atom-count stamp)
         self.memo = {}        # term id -> (Lin, lo, hi)
         self.splits = {}      # (form key, k) -> (lo Lin, hi Lin, hi_lo, hi_hi)
         self.prods = {}       # (atom, atom) -> atom
@@ -295,6 +308,25 @@ class IntEnc:
     def opaque_atom(self, t):
         a = self.new_atom("u", t.lo, t.hi, ("opaque", t))
         self.opaque.append((a, t))
+        # mask-case axioms (valid for all operand values): behaviour of the
+        # bitwise operation when an operand is 0 or all-ones
+        if t.op in ("and", "or", "xor") and t.w > 1:
+            M = (1 << t.w) - 1
+            fx, _, _ = self.F(t.args[0])
+            fy, _, _ = self.F(t.args[1])
+            for (p, o) in ((fx, fy), (fy, fx)):
+                if p.is_const():
+                    continue
+                ps, os_ = p.smt(), o.smt()
+                if t.op == "and":
+                    self.cons.append("(=> (= %s 0) (= %s 0))" % (ps, a))
+                    self.cons.append("(=> (= %s %d) (= %s %s))" % (ps, M, a, os_))
+                elif t.op == "or":
+                    self.cons.append("(=> (= %s 0) (= %s %s))" % (ps, a, os_))
+                    self.cons.append("(=> (= %s %d) (= %s %d))" % (ps, M, a, M))
+                else:
+                    self.cons.append("(=> (= %s 0) (= %s %s))" % (ps, a, os_))
+                    self.cons.append("(=> (= %s %d) (= %s (- %d %s)))" % (ps, M, a, M, os_))
         return Lin(0, {a: 1}), t.lo, t.hi
 
     # -------------------------------------------------------- term -> form
@@ -329,6 +361,11 @@ class IntEnc:
             for x in a:
                 g, gl, gh = self.F(x)
                 f, lo, hi = f + g, lo + gl, hi + gh
+            # bool - 1  (mod 2^w)  ==  all-ones * (1 - bool)
+            if f.c == M - 1:
+                Bf = f - (M - 1)
+                if Bf.m and self.is_bool(Bf):
+                    return (Lin(1) - Bf).scale(M - 1), 0, M - 1
             return self.wrap(f, lo, hi, w, "c")
         if op == "sub":
             f0, l0, h0 = self.F(a[0])
@@ -527,27 +564,54 @@ class IntEnc:
         return Lin(0, {z: 1}), 0, 1
 
     # -------------------------------------------------------- emission
-    def script(self, goal_negated, extra=(), logic="QF_LIA", models=True, exact_products=False):
+    ATOM_RE = None
+
+    def atoms_in(self, text):
+        import re
+        if IntEnc.ATOM_RE is None:
+            IntEnc.ATOM_RE = re.compile(r"(?<![\w|])([A-Za-z]_?[A-Za-z0-9_]*[0-9])(?![\w|])")
+        return [a for a in IntEnc.ATOM_RE.findall(text) if a in self.atoms]
+
+    def prefix_for(self, texts):
+        """smallest program-order prefix (number of atoms) containing all atoms
+        mentioned in the given SMT strings"""
+        idx = {a: i for i, a in enumerate(self.order)}
+        mx = 0
+        for t in texts:
+            for a in self.atoms_in(t):
+                mx = max(mx, idx[a] + 1)
+        return mx
+
+    def script(self, goal_negated, extra=(), logic="QF_LIA", models=True, exact_products=False,
+               prefix=None):
+        """prefix=N keeps only the first N atoms (program order) and the
+        constraints that mention no later atom: a weaker (still sound)
+        assumption set, used to prove local lemmas cheaply."""
         s = []
         if logic:
             s.append("(set-logic %s)" % logic)
         if models:
             s.append("(set-option :produce-models true)")
-        for a in self.order:
+        order = self.order if prefix is None else self.order[:prefix]
+        keep = set(order)
+        for a in order:
             lo, hi = self.atoms[a]
             s.append("(declare-const %s Int)" % a)
             s.append("(assert (<= %s %s %s))" % (_n(lo), a, _n(hi)))
         if exact_products:
             for p, (x, y) in self.prod_ops.items():
-                s.append("(assert (= %s (* %s %s)))" % (p, x, y))
-        for c in self.cons:
-            s.append("(assert %s)" % c)
+                if p in keep:
+                    s.append("(assert (= %s (* %s %s)))" % (p, x, y))
+        for c, st in zip(self.cons, self.cons.stamp):
+            if prefix is None or st <= prefix:
+                s.append("(assert %s)" % c)
         for c in extra:
-            s.append("(assert %s)" % c)
+            if prefix is None or all(a in keep for a in self.atoms_in(c)):
+                s.append("(assert %s)" % c)
         s.append("(assert %s)" % goal_negated)
         s.append("(check-sat)")
         if models:
-            names = [a for a in self.order if a.startswith("x_")]
+            names = [a for a in order if a.startswith("x_")]
             if names:
                 s.append("(get-value (%s))" % " ".join(names))
         return "\n".join(s) + "\n"
